@@ -10,7 +10,7 @@ Extraction "model.ml"
   k_new k_step k_run k_export_capacity old_export_capacity
   ml_step ml_run kl_new kl_step kl_run kl_clear_expired
   seg_new seg_step seg_run lcount insert_mask intersect_mask place_mask visit_mask bits lowbit
-  rb_ok bst_ok height_ok pool_ok rb_bh
+  rb_ok bst_ok height_ok pool_ok rb_bh tiles_ok lindex
   elements slots ents keys size height level_order ent_at
   a_insert a_remove a_lookup a_update a_pred a_pred_by a_next a_prev
   alive ref_less ref_less_eq ref_less_eq_by ref_get ref_export
